@@ -135,6 +135,15 @@ def s1_attr_split():
         ('crate_str', [dw([('NV', P('crate'), ('EStr', '"::my::dw"', (True, ['my', 'dw'])))]), dw(['Hash'], ['T'])]),
         ('order', [dw(['Debug', 'Clone'], ['U', 'T']), dw(['Hash'], ['T', 'U'])]),
     ]
+    # adjacent attributes: merged only when the bound LISTS are equal (not merely equal as sets)
+    rel = [('equal', ['T', 'U'], ['T', 'U']), ('permuted', ['T', 'U'], ['U', 'T']), ('set_eq_a', ['T', 'U'], ['T', 'T']), ('set_eq_b', ['T', 'T'], ['T', 'U']),
+           ('subset', ['T', 'U'], ['T']), ('superset', ['T'], ['T', 'U']), ('dup_len', ['T', 'T'], ['T']),
+           ('custom_perm', [('Pred', ['T', ':', 'Tr']), ('Pred', ['U', ':', 'Tr'])], [('Pred', ['U', ':', 'Tr']), ('Pred', ['T', ':', 'Tr'])]),
+           ('custom_vs_plain', [('Pred', ['T', ':', 'Clone'])], ['T']), ('ty_vs_pred_same_toks', [('Ty', ['Vec', '<', 'T', '>'])], [('Ty', ['Vec', '<', 'U', '>'])])]
+    for rtag, la, lb in rel:
+        combos.append(('rel_' + rtag, [dw(['Debug'], la), dw(['Clone'], lb)]))
+        combos.append(('rel3_' + rtag, [dw(['Debug'], la), dw(['Clone'], lb), dw(['Hash'], la)]))
+        combos.append(('relcc_' + rtag, [dw(['Copy'], la), dw(['Clone'], lb)]))
     for tag, attrs in combos:
         yield 'split/%s/struct' % tag, st('S', f, attrs, gen=g2)
         yield 'split/%s/enum' % tag, en('E', vs, attrs, gen=g2)
@@ -446,6 +455,13 @@ def s3_invalid():
     for t in ('Debug', 'Default', 'Eq', 'Hash', 'Ord', 'PartialEq', 'PartialOrd'):
         yield 'inv/union/' + t, un('U', f2, [dw([t])])
         yield 'inv/union_second/' + t, un('U', f2, [dw(['Clone', t])])
+    # unions with traits in list / name-value form (every feature configuration)
+    for t in ('Clone', 'Copy', 'Debug', 'Hash', 'Zeroize', 'ZeroizeOnDrop'):
+        yield 'inv/union_opts/list/' + t, un('U', f2, [dw([('L', P(t), [mpath('x')], None)])])
+        yield 'inv/union_opts/crate/' + t, un('U', f2, [dw([('L', P(t), [('NV', P('crate'), ('EPath', (False, ['zz'])))], None)])])
+        yield 'inv/union_opts/crate_second/' + t, un('U', f2, [dw(['Clone', ('L', P(t), [('NV', P('crate'), ('EPath', (False, ['zz'])))], None)])])
+        yield 'inv/union_opts/nv/' + t, un('U', f2, [dw([('NV', P(t), ('EOther', ['1']))])])
+        yield 'inv/union_opts/empty/' + t, un('U', f2, [dw([('L', P(t), [], None)])])
     # traits and options
     yield 'inv/unknown_trait', S([dw(['Clone', 'Foo'])])
     yield 'inv/unknown_trait_path', S([dw([('P', (True, ['core', 'clone', 'Clone']))])])
